@@ -61,7 +61,11 @@ type Cell struct {
 	fields []*Cell // struct
 	elems  []*Cell // array
 	label  string
+	allocG *Term // guard under which the cell was allocated (stores under the same guard are unconditional)
 }
+
+// curGuard is the guard of the block being executed; new cells record it.
+var curGuard *Term
 
 type MapEntry struct {
 	key     Value
@@ -196,7 +200,7 @@ func zero(t types.Type) Value {
 }
 
 func newCell(t types.Type, init Value) *Cell {
-	c := &Cell{id: nextID(), typ: t}
+	c := &Cell{id: nextID(), typ: t, allocG: curGuard}
 	switch u := t.Underlying().(type) {
 	case *types.Struct:
 		sv, ok := init.(StructV)
@@ -284,6 +288,9 @@ func storeCell(c *Cell, g *Term, v Value) {
 	if _, ok := c.typ.Underlying().(*types.Array); ok {
 		return
 	}
+	if c.allocG != nil && !g.IsTrue() {
+		g = Or(g, Not(c.allocG))
+	}
 	c.v = iteV(g, v, c.v)
 }
 
@@ -308,7 +315,35 @@ func mergeRef(c *Term, a, b RefV) RefV {
 	for _, x := range b.alts {
 		add(And(nc, x.c), x.o)
 	}
+	if len(out) > pruneAltsAbove && theEngine != nil {
+		out = theEngine.pruneAlts(out)
+	}
 	return RefV{out}
+}
+
+const pruneAltsAbove = 5
+
+var theEngine *Engine
+
+// pruneAlts drops alternatives whose condition is unsatisfiable together with the current block guard.
+func (e *Engine) pruneAlts(alts []RefAlt) []RefAlt {
+	if e.bestEffort > 0 || curGuard == nil {
+		return alts
+	}
+	var out []RefAlt
+	if e.trace {
+		e.logf("PRUNE %d alts at %s", len(alts), e.pos(0))
+		for _, a := range alts {
+			e.logf("   alt obj=%d cond=%s", a.o.(*Cell).id, a.c.render(4))
+		}
+	}
+	for _, a := range alts {
+		e.PruneQueries++
+		if e.feasibleW(And(curGuard, a.c), "prune") {
+			out = append(out, a)
+		}
+	}
+	return out
 }
 
 func (r RefV) isNil() *Term {
